@@ -69,8 +69,12 @@ PLAN = {
     "C16": {"quick": [e3(8000, templates=["pack", "packunpack"])], "thorough": [e3(80000, templates=["pack", "packunpack"])]},
     "C17": {"quick": [e3(8000)], "thorough": [e3(80000)]},
     "C18": {"quick": [e3(8000), e1(8000)], "thorough": [e3(80000), e1(80000)]},
-    "C19": {"quick": [{"engine": "E7", "params": {"min_T": 120}, "cases": 160, "timeout": 1200}],
-            "thorough": [{"engine": "E7", "params": {"min_T": 120}, "cases": 3200, "timeout": 6000}]},
+    "C19": {"quick": [{"engine": "E7", "params": {"min_T": 120}, "cases": 160, "timeout": 1200},
+                      # in-process only (run twice + unmonitored), the run ends wherever the spec's own T falls: state left
+                      # behind by a run that stops in the middle of an operation must not leak into the next run
+                      {"engine": "E7", "params": {"children": 0, "templates": ["packunpack", "splitline", "pack", "diamond", "fanin", "line"]}, "cases": 1200, "timeout": 1200}],
+            "thorough": [{"engine": "E7", "params": {"min_T": 120}, "cases": 3200, "timeout": 6000},
+                         {"engine": "E7", "params": {"children": 0, "templates": ["packunpack", "splitline", "pack", "diamond", "fanin", "line"]}, "cases": 32000, "timeout": 6000}]},
     "C12": {"quick": [{"engine": "E4", "params": {}, "cases": 12000}, {"engine": "E4", "params": {"aligned": 1, "kind": "cont_nacc"}, "cases": 6000}, {"engine": "E4", "params": {"ragged": 1, "kind": "cont_nacc"}, "cases": 320}, e3(4000, templates=["line", "fanin", "diamond"])],
             "thorough": [{"engine": "E4", "params": {}, "cases": 240000}, {"engine": "E4", "params": {"aligned": 1, "kind": "cont_nacc"}, "cases": 60000}, {"engine": "E4", "params": {"ragged": 1}, "cases": 3200}, e3(40000)]},
     "C13": {"quick": [{"engine": "E4", "params": {}, "cases": 12000}, {"engine": "E4", "params": {"aligned": 1, "kind": "cont_nacc"}, "cases": 6000}, e3(4000, templates=["line", "fanin", "diamond"])],
